@@ -353,7 +353,7 @@ fn replay(case: &Value) -> ! {
                 0 => usize::MAX,
                 x => x as usize,
             };
-            let (_, bytes, calls) = run_case(c, Plan::none(), false, g);
+            let (_, bytes, calls) = run_case(c, Plan::none(), false, usize::MAX);
             let r = WriterRef { sync: if c.deterministic { vec![] } else { avro_sync_positions(&bytes) }, bytes, calls: vec![calls] };
             let (k, f, p, stop) = (case["call"].as_u64().unwrap() as usize, fault_of(case["fault"].as_str().unwrap()), case["persistent"].as_bool().unwrap(), case["stop_at_error"].as_bool().unwrap());
             let second = case["second_fault_call"].as_u64().map(|x| x as usize);
@@ -373,7 +373,7 @@ fn replay(case: &Value) -> ! {
                 0 => usize::MAX,
                 x => x as usize,
             };
-            let (reference, n, _) = run_reader(c, Plan::none(), g);
+            let (reference, n, _) = run_reader(c, Plan::none(), usize::MAX);
             let (k, f, p) = (case["call"].as_u64().unwrap() as usize, fault_of(case["fault"].as_str().unwrap()), case["persistent"].as_bool().unwrap());
             let (o, _, fired) = run_reader(c, Plan { at: k, fault: f, persistent: p }, g);
             println!("expectation: fault-free run makes {n} read calls and returns class={} rows={}", reference.class, reference.rows.len());
@@ -453,13 +453,24 @@ pub fn run(ctx: &Ctx) -> ! {
             }
             // determinism of the fault-free output (the prefix oracle relies on it)
             let (_, again, n2) = run_case(c, Plan::none(), false, g);
-            let sync = if c.deterministic { vec![] } else { avro_sync_positions(&bytes) };
-            if mask(&again, &sync) != mask(&bytes, &sync) || n != n2 || (gi > 0 && mask(&bytes, &sync) != mask(&bytes0, &sync)) {
+            let sync = if c.deterministic { vec![] } else { avro_sync_positions(if gi == 0 { &bytes } else { &bytes0 }) };
+            if mask(&again, &sync) != mask(&bytes, &sync) || n != n2 {
                 eprintln!("MACHINERY: writer {} is not deterministic after masking; the prefix oracle does not apply", c.name);
                 std::process::exit(2);
             }
             if gi == 0 {
                 bytes0 = bytes;
+            } else if mask(&bytes, &sync) != mask(&bytes0, &sync) {
+                // a device that accepts at most g bytes per call is legal: every call returned Ok, yet the
+                // content differs from what an unbounded device received
+                let d = bytes.iter().zip(&bytes0).position(|(a, b)| a != b).unwrap_or(bytes.len().min(bytes0.len()));
+                st.add(&format!("writer:{}", c.name), 1, 1);
+                st.violate(
+                    gi as u64,
+                    format!("c18:{}:all-steps-ok-but-sink-content-differs", c.name),
+                    format!("{}: no fault injected, sink accepts at most {g} bytes per write call: every call returned Ok but the sink holds {} bytes vs {} with an unbounded device, first difference at byte {d}", c.name, bytes.len(), bytes0.len()),
+                    || writer_case_json(c, usize::MAX >> 1, Fault::None, false, true, g, None),
+                );
             }
             calls.push(n);
         }
@@ -549,12 +560,23 @@ pub fn run(ctx: &Ctx) -> ! {
     let mut rjobs: Vec<(usize, usize, u64)> = vec![];
     let mut first = 0u64;
     for (i, c) in rcases.iter().enumerate() {
-        let mut per_g = vec![];
+        let mut per_g: Vec<(ReadOutcome, usize)> = vec![];
         for (gi, &g) in grans.iter().enumerate() {
             let (o, n, _) = run_reader(c, Plan::none(), g);
-            if o.class != "ok" || o.rows.is_empty() {
+            if gi == 0 && (o.class != "ok" || o.rows.is_empty()) {
                 eprintln!("MACHINERY: fault-free read with {} failed: {} {}", c.name, o.class, o.msg);
                 std::process::exit(2);
+            }
+            if gi > 0 && (o.class != per_g[0].0.class || o.rows != per_g[0].0.rows) {
+                // short reads are legal: the result must not depend on how many bytes a read call returns
+                let first_ref: &(ReadOutcome, usize) = &per_g[0];
+                st.add(&format!("reader:{}", c.name), 1, 1);
+                st.violate(
+                    base_r + gi as u64,
+                    format!("c18:{}:result-depends-on-read-granularity", c.name),
+                    format!("{}: no fault injected, source returns at most {g} bytes per read call: class={} rows={} msg={:?} vs class=ok rows={} with an unbounded source", c.name, o.class, o.rows.len(), o.msg, first_ref.0.rows.len()),
+                    || json!({"sub": "reader", "reader": c.name, "call": usize::MAX >> 1, "fault": "none", "persistent": false, "max_bytes_per_call": g}),
+                );
             }
             rjobs.push((i, gi, first));
             first += (n * rmenu.len()) as u64;
